@@ -359,6 +359,7 @@ func TestWorker(t *testing.T) {
 			l := outLine{T: "run", I: idx, Seed: seed, Res: res, NT: nt}
 			emit(l)
 		}
+		emit(outLine{T: "end", I: idx}) // a death after this line is not this run's
 		idx += job.Stride
 		if res.LeftTasks > 0 || strings.HasPrefix(res.Abort, "bubble") {
 			// blocked goroutines were left behind: this process is tainted
